@@ -4,6 +4,8 @@ import (
 	"context"
 	"crypto/tls"
 	"fmt"
+	maillog "github.com/wneessen/go-mail/log"
+	"io"
 	"strings"
 	"testing"
 	"time"
@@ -42,6 +44,9 @@ type c14Case struct {
 	// (and is turned away), is then given the current ones through SetUsername/SetPassword and dials
 	// again: the second connection is judged with the current credentials and its own channel binding.
 	SetBetween bool `json:"set_between,omitempty"`
+	// Debug: the Client runs with debug logging on (into a logger that discards): what is logged must
+	// not change what is sent.
+	Debug bool `json:"debug,omitempty"`
 }
 
 // c14NormPair reports whether (raw, normalised) is one of the hand-verified normalisation pairs.
@@ -144,6 +149,9 @@ func c14Run(c c14Case) []*core.Violation {
 		opts = append(opts, mail.WithSMTPAuth(mail.SMTPAuthType(c.Mech)), mail.WithUsername(c.ClientUser), mail.WithPassword(c.ClientPass))
 	}
 	setBetween := c.SetBetween && custom == nil
+	if c.Debug {
+		opts = append(opts, mail.WithLogger(maillog.New(io.Discard, maillog.LevelDebug)), mail.WithDebugLog())
+	}
 	cl, err := mail.NewClient(refHost, opts...)
 	if err != nil {
 		return []*core.Violation{core.V("HARNESS-newclient", "%v", err)}
@@ -360,6 +368,7 @@ func c14Gen(t *rapid.T) c14Case {
 		c.PrevPass = c.Pass + "-old"
 	}
 	c.SetBetween = rapid.IntRange(0, 4).Draw(t, "setbetween") == 0
+	c.Debug = rapid.IntRange(0, 3).Draw(t, "debug") == 0
 	if c.Retry && rapid.Bool().Draw(t, "othersalt") {
 		c.Salt2 = rapid.SliceOfN(rapid.Byte(), 1, 32).Draw(t, "salt2")
 	}
@@ -369,7 +378,7 @@ func c14Gen(t *rapid.T) c14Case {
 func TestC14(t *testing.T) {
 	rec := core.Rec("C14")
 	rec.Rule = "the real Client (DialWithContext, STARTTLS over in-memory connections where TLS is needed) authenticates against reference servers written from RFC 4616 (PLAIN), draft-murchison (LOGIN), RFC 2195 (CRAM-MD5), Google's XOAUTH2 format and RFC 5802/7677/9266 (SCRAM-SHA-1/-256 and the PLUS variants with tls-unique on TLS 1.2 and tls-exporter on TLS 1.3 taken from the server's own side of the very connection; own PBKDF2; validated on the RFC 5802/7677/6070 vectors). " +
-		"rapid draws account and client credentials from fragments {ASCII, ',' '=' '=2C' '=3D' blanks, quotes, backslash, 'n=' 'r=' 'p=', Unicode letters that are fixed points of SASLprep and PRECIS, TAB/0x01/DEL, empty}, wrong-credential twins (other password, other user, near misses), salts of 1..64 bytes, iteration counts 1..20000, server nonce suffixes, extensions after i=, CRAM challenges, TLS none/1.2/1.3, a retry on the same smtp.Auth value for every mechanism (SCRAM optionally against another salt with the same iteration count), a preparatory exchange of the same user with a since-rotated password against the same salt, a Client created with stale credentials that dials, is turned away, is given the current credentials through SetUsername/SetPassword and dials again (incl. the PLUS variants, whose second connection has its own channel binding), and hand-verified normalisation pairs (NFC composition, non-ASCII space) where the account holds the normalised password. " +
+		"rapid draws account and client credentials from fragments {ASCII, ',' '=' '=2C' '=3D' blanks, quotes, backslash, 'n=' 'r=' 'p=', Unicode letters that are fixed points of SASLprep and PRECIS, TAB/0x01/DEL, empty}, wrong-credential twins (other password, other user, near misses), salts of 1..64 bytes, iteration counts 1..20000, server nonce suffixes, extensions after i=, CRAM challenges, TLS none/1.2/1.3, debug logging on or off, a retry on the same smtp.Auth value for every mechanism (SCRAM optionally against another salt with the same iteration count), a preparatory exchange of the same user with a since-rotated password against the same salt, a Client created with stale credentials that dials, is turned away, is given the current credentials through SetUsername/SetPassword and dials again (incl. the PLUS variants, whose second connection has its own channel binding), and hand-verified normalisation pairs (NFC composition, non-ASCII space) where the account holds the normalised password. " +
 		"Oracle: verifier accepts <=> credentials are the account's; right credentials => dial succeeds; wrong => error; no message the verifier finds malformed; SCRAM client nonces pairwise distinct and >= 18 characters; PLUS uses the binding type that fits the TLS version. A local refusal of PRECIS-forbidden strings (control characters, empty) by SCRAM is a permitted third outcome, counted separately and never non-trivial. " +
 		"Non-trivial: credentials with a non-alphanumeric character, iterations > 1, or a PLUS mechanism. Distinct by (mechanism, TLS, credentials, salt length, iterations, suffix, extensions, challenge, retry)."
 	rec.Assumptions = []string{"Unicode credentials are restricted to fixed points of SASLprep and PRECIS OpaqueString (no independent normaliser is available offline)", "NUL is not generated (outside the property's quantifier), nor is ^A for XOAUTH2 (its field separator)"}
